@@ -382,7 +382,28 @@ def apply_pt(op: str, args, p):
         return KERNELS[p["kernel"]].pt_apply(args, p)
     if op == "item":
         return args[0][p["key"]]
+    if op == "named":
+        # a NamedArray: entry of a DictOfNamedArrays
+        data = {p["key"]: args[0]}
+        for k, a in zip(p.get("extra_keys", []), args[1:]):
+            data[k] = a
+        return pt.make_dict_of_named_arrays(data)[p["key"]]
+    if op == "sendhold":
+        return pt.staple_distributed_send(
+            args[0], dest_rank=p["dest"], comm_tag=comm_tag(p["tag"]),
+            stapled_to=args[1])
+    if op == "recv":
+        return pt.make_distributed_recv(
+            src_rank=p["src"], comm_tag=comm_tag(p["tag"]),
+            shape=tuple(p["shape"]), dtype=dt(p["dtype"]))
     raise ValueError(f"unknown op {op}")
+
+
+def comm_tag(t):
+    """JSON -> hashable communication tag (lists become tuples)."""
+    if isinstance(t, list):
+        return tuple(comm_tag(x) for x in t)
+    return t
 
 
 @dataclass
@@ -447,12 +468,18 @@ def _pt_fncall(node, args, fns, mode: str):
 
 
 def build_pt(spec, *, with_tags: bool = True, output_order=None, bind=None,
-             fns=None, mode: str = "traced") -> PtProgram:
+             fns=None, mode: str = "traced", reuse=None) -> PtProgram:
+    """*reuse*: node index -> pytato object to use instead of building the
+    node (DataWrappers compare by identity, so an 'independently rebuilt'
+    graph must share them)."""
     env: list[Any] = []
     cache: dict = {}
     fns = spec.get("fns") if fns is None else fns
-    for node in spec["nodes"]:
+    for inode, node in enumerate(spec["nodes"]):
         op = node["op"]
+        if reuse is not None and inode in reuse:
+            env.append(reuse[inode])
+            continue
         if op in INPUT_OPS:
             if bind is not None and op == "placeholder" \
                     and node["p"]["name"] in bind:
